@@ -40,6 +40,9 @@ def enc_op(op):
     # ("IoWrite", d1, d2) / ("IoRead", k1, k2): the same call through the PROVIDED vectored entry point with the slices
     # [empty, d1, d2] / [empty, k1 bytes, k2 bytes]; std's default passes the first non-empty slice on, so the expected behaviour is
     # that of ("IoWrite", d1) / ("IoRead", k1) (d1 / k1 non-empty by construction; otherwise the plain form is encoded)
+    if n == "IoWrite" and len(op) > 2 and op[2] == "all":
+        # buf.write_all(d) in method-call syntax: the provided Write::write_all, i.e. one all-or-nothing write(d)
+        return [28, len(op[1])] + list(op[1])
     if n == "IoWrite" and len(op) > 2 and len(op[1]) > 0:
         return [26, len(op[1])] + list(op[1]) + [len(op[2])] + list(op[2])
     if n == "IoRead" and len(op) > 2 and op[1] > 0:
@@ -412,6 +415,7 @@ def op_alphabet(b, rng, rich=True):
         ops += [("ReadCopy", n), ("TryReadExact", n), ("IoRead", n)]
         d = [97 + (i % 26) for i in range(n)]
         ops += [("WriteBytes", tuple(d)), ("IoWrite", tuple(d))]
+        ops += [("IoWrite", tuple(d), "all")]     # write_all in method-call syntax
         if n > 0:     # the provided vectored entry points (see enc_op)
             ops += [("IoWrite", tuple(d), (120,)), ("IoWrite", tuple(d), tuple([121] * max(b.ri, 1))), ("IoRead", n, 1), ("IoRead", n, b.size + 1)]
         ops += [("WritableWrote", tuple([65] * min(n, 6)), n)]
@@ -463,6 +467,8 @@ def random_history(rng, size, maxlen, weights=None):
                 op = ("IoWrite", tuple(rbytes(rng, n)))
                 if n > 0 and rng.random() < 0.4:
                     op = op + (tuple(rbytes(rng, rng.choice([1, 2, max(b.ri, 1), max(w - n, 1), w + 1]))),)
+                elif rng.random() < 0.3:
+                    op = op + ("all",)
             elif kind < 0.85:
                 m = rng.choice([n, n, max(n - 1, 0), n + 1])
                 op = ("WritableWrote", tuple(rbytes(rng, min(m, 300))), n if valid else rng.choice([w + 1, UMAX, (U - b.wi) % U]))
@@ -758,7 +764,7 @@ class C01(ApiProp):
                         # accepted bytes as told by the result: Ok(n) accepts the first n bytes (write_str: all)
                         # (through the vectored entry point: the first n bytes of the slices taken together — what any Write
                         # implementation may accept; which slices the PROVIDED method passes on is the model's business)
-                        offered = list(op[1]) + (list(op[2]) if n == "IoWrite" and len(op) > 2 else [])
+                        offered = list(op[1]) + (list(op[2]) if n == "IoWrite" and len(op) > 2 and op[2] != "all" else [])
                         want = (list(op[1]) if n == "WriteStr" else offered[:res[1]]) if okd else []
                         if added != want:
                             return "op %d %s (result %r) appended %r, accepted bytes are %r" % (i, fmt(op), res, added, want)
@@ -807,7 +813,7 @@ class C03(ApiProp):
                     return "op %d %s: len()/writable() panicked" % (i, fmt(op))
                 if b.len + b.wlen > size:
                     return "op %d %s: len() + writable().len() = %d > SIZE" % (i, fmt(op), b.len + b.wlen)
-                if n == "IoWrite" and len(op) > 2:
+                if n == "IoWrite" and len(op) > 2 and op[2] != "all":
                     # through the vectored entry point: Ok(m) moves exactly m <= total bytes, a refusal changes nothing and happens
                     # only when the slices do not fit together (the provided method refuses when the first one does not fit)
                     total = len(op[1]) + len(op[2])
